@@ -190,6 +190,15 @@ CARRIERS = [
     "def f(a,\n   b=1,\n   c): pass\n",
     "import (a,\n  b)\n",
     "from a import (b,\n  c,\n  )\nfrom d import (\n)\n",
+    # numeric literal shapes (their prefixes are what a cut source leaves behind), unicode names and digits
+    "x = 1_000j + 0x_ff + 1e10 + 1.e+5 + 0b1_0 + 0o17 + 1.5j + .5e-3\n",
+    "y = 0xFF_FF | 0B11 | 0O7 | 1_0.0_1e1_0 | 1E5J\n",
+    "z = 1__0 + 0x + 1e + 0b2 + 09 + 1.2.3 + 1_\n",
+    "\u0646\u0627\u0645 = \u0661\u0662\n",
+    "\u00aa\u00b5 = e\u0301 + \ufb01 + x\u0303\u0303\n",
+    "d\u00e9f = '\u00e9' if \u00e9 else $\u00c9COLE\n",
+    "x = '" + "a" * 300 + "'\n",
+    "n" * 200 + " = 1\n",
     # version-gated constructs
     "try:\n    pass\nexcept* E:\n    pass\n",
     "type X = int\n",
